@@ -556,14 +556,28 @@ def judge(case: dict, d: str, rc: int, log: list[dict], records: list[Record | N
                     mgr = PseudonymManager(idb, public_key=pub)
                 except Exception as e:  # noqa: BLE001
                     fail("F4", _site(e, "PseudonymManager"), f"rebuilding pseudonym {p} raised {type(e).__name__}: {e}")
-                for h, tok in sorted(mgr.tree.elements.items()):
-                    if h != tok.get_hash() or not mgr.tree.verify(tok):
-                        fail("F4", "tree.verify", f"pseudonym {p}: loaded token {_short(h)} does not verify back to "
-                                                  f"the genesis hash")
                 skipped = {r["i"] for r in log if r["t"] == "skip"}
                 token_inserts = {r.obj[0].get_hash() for i, r in enumerate(records)
                                  if r is not None and r in started and i not in skipped and r.table == "Tokens"
                                  and r.pseud == p}
+                prev_of = {r.obj[0].get_hash(): r.obj[0].previous_token_hash for i, r in enumerate(records)
+                           if r is not None and r in started and i not in skipped and r.table == "Tokens" and r.pseud == p}
+
+                def rooted(h: bytes) -> bool:
+                    # the workload itself stored the whole chain below this token (a token whose predecessor was never
+                    # handed to the database - its credential was turned down by the manager and skipped - dangles by
+                    # the caller's doing: nothing the database could keep or lose)
+                    for _ in range(len(prev_of) + 1):
+                        if h == mgr.tree.genesis_hash:
+                            return True
+                        if h not in prev_of:
+                            return False
+                        h = prev_of[h]
+                    return False
+                for h, tok in sorted(mgr.tree.elements.items()):
+                    if h != tok.get_hash() or (rooted(h) and not mgr.tree.verify(tok)):
+                        fail("F4", "tree.verify", f"pseudonym {p}: loaded token {_short(h)} does not verify back to "
+                                                  f"the genesis hash")
                 for cred in mgr.credentials:
                     tok = mgr.tree.elements.get(cred.metadata.token_pointer)
                     if tok is None and cred.metadata.token_pointer not in token_inserts:
@@ -574,7 +588,7 @@ def judge(case: dict, d: str, rc: int, log: list[dict], records: list[Record | N
                     if tok is None:
                         fail("F4", "credential.token", f"pseudonym {p}: credential metadata points at token "
                                                        f"{_short(cred.metadata.token_pointer)} which is not in the tree")
-                    if not mgr.tree.verify(tok):
+                    if rooted(tok.get_hash()) and not mgr.tree.verify(tok):
                         fail("F4", "tree.verify", f"pseudonym {p}: the token of a credential does not verify")
                     if not cred.metadata.verify(pub):
                         fail("F4", "metadata.verify", f"pseudonym {p}: reloaded metadata has an invalid signature")
